@@ -34,7 +34,8 @@ def evaluate(pid, tier, prog, cache):
                 cache[key] = fn(prog, tier)
             except Unrecognised as e:
                 # the anchor exists but has a shape the rule does not model: no verdict from this rule
-                cache[key] = ([Ob(rname, 'trees', 'rule %s can analyse its anchor' % rname, None, str(e),
+                cache[key] = (list(getattr(e, 'partial', ())) +
+                              [Ob(rname, 'trees', 'rule %s can analyse its anchor' % rname, None, str(e),
                                   construct='unrecognised:' + rname)], {})
             except AnalysisError as e:
                 cache[key] = e
